@@ -207,7 +207,7 @@ fn case(ctx: &Ctx, bytes: &[u8]) -> Outcome {
             check(ctx, "generated-session", &sess.forms, sched, &label, every, between, true)
         }
         1 => {
-            let sk = decode(&mut |n| c.below(n), &Bounds { max_levels: 3, names: 2, modes: 5 });
+            let sk = decode(&mut |n| c.below(n), &Bounds { max_levels: 3, names: 2, modes: 5, actions: 4 });
             check(ctx, "scope-skeleton", &sk.program(), sched, &label, every, between, true)
         }
         _ => {
